@@ -60,19 +60,58 @@ def gen_cases(rng, n, tier):
 def gen_sp_program2(rng):
     """several entities and classes: a versioned flush of another class before the savepoint (so the transaction
     record exists outside it), inner work on one entity, later work on the same or on another entity"""
-    prog = [['add', 0, 1, {'a': 1}], ['add', 0, 2, {'a': 1}], ['add', 1, 1, {'a': 0}], ['add', 3, 1, {'a': 0}], ['commit']]
+    prog = [['add', 0, 1, {'a': 1}], ['add', 0, 2, {'a': 1}], ['add', 1, 1, {'a': 0}], ['add', 2, 1, {'a': 0}],
+            ['add', 2, 2, {'a': 0}], ['add', 3, 1, {'a': 0}], ['commit']]
+    orm_links, raw_links = set(), set()       # label 1 through the ORM, label 2 through Core statements
     for rnd in range(rng.randint(1, 3)):
-        if rng.random() < 0.6:
+        pre = rng.random()
+        if pre < 0.45:
             prog.append(['set', 1, 1, {'a': rng.choice([0, 1, 2])}])
             prog.append(['flush'])
+        elif pre < 0.60:
+            # the unit of work owns a transaction record but holds no operation: a relationship-only flush ...
+            a = rng.choice([1, 2])
+            if a in orm_links:
+                prog.append(['unlink', a, 1])
+                orm_links.discard(a)
+            else:
+                prog.append(['link', a, 1])
+                orm_links.add(a)
+            prog.append(['flush'])
+        elif pre < 0.70:
+            prog.append(['manualtx'])           # ... or a record created by the application itself
         prog.append(['sp_begin'])
         kin = rng.choice([1, 2])
-        prog.append(rng.choice([['set', 0, kin, {'b': rng.choice([0, 1, 2])}], ['set', 3, 1, {'a': rng.choice([0, 1, 2])}],
-                                ['add', 0, 3 + rnd, {'a': 1}]]))
+        a = rng.choice([1, 2])
+        raw_before = set(raw_links)
+        if a in raw_links:
+            raw = ['rawunlink', a, 2]
+        else:
+            raw = ['rawlink', a, 2]
+        choices = [['set', 0, kin, {'b': rng.choice([0, 1, 2])}], ['set', 3, 1, {'a': rng.choice([0, 1, 2])}],
+                   ['add', 0, 3 + rnd, {'a': 1}]]
+        if pre < 0.70:
+            # a Core statement on the association table: intercepted (the transaction has a unit of work already; a
+            # Core statement issued before the first flush of a transaction has nothing to attach to), not followed
+            # by a flush inside the savepoint
+            choices += [raw, raw]
+        inner = rng.choice(choices)
+        if inner is raw:
+            (raw_links.discard if raw[0] == 'rawunlink' else raw_links.add)(a)
+        prog.append(inner)
         if rng.random() < 0.8:
             prog.append(['flush'])
-        prog.append([rng.choice(['sp_rollback', 'sp_rollback', 'sp_release'])])
-        if rng.random() < 0.8:
+        end = rng.choice(['sp_rollback', 'sp_rollback', 'sp_release'])
+        prog.append([end])
+        if end == 'sp_rollback':
+            raw_links = raw_before
+        if inner is raw:
+            # a Core statement on the association table becomes a version row at the next flush that has something
+            # to flush: make sure one follows (a trailing statement without any flush is never versioned - Core
+            # statements are outside C10's relationship operations)
+            prog.append(['set', 0, rng.choice([1, 2]), {'a': 20 + 3 * rnd + len(prog) % 3}])
+            prog.append(['flush'])
+        elif rng.random() < 0.8:
             prog.append(['set', 0, rng.choice([1, 2]), {'a': rng.choice([0, 1, 2])}])
             if rng.random() < 0.5:
                 prog.append(['flush'])
